@@ -866,7 +866,10 @@ impl<'p, 's, M: Matcher, W: WriteColor> Sink for StandardSink<'p, 's, M, W> {
         }
         if searcher.binary_detection().convert_byte().is_some() {
             if self.binary_byte_offset.is_some() {
-                return Ok(false);
+                // Don't print anything, but keep going: whether the "binary
+                // file matches" message is shown depends on whether a match
+                // follows, and a contextual line isn't one.
+                return Ok(true);
             }
         }
 
@@ -878,6 +881,11 @@ impl<'p, 's, M: Matcher, W: WriteColor> Sink for StandardSink<'p, 's, M, W> {
         &mut self,
         searcher: &Searcher,
     ) -> Result<bool, io::Error> {
+        if searcher.binary_detection().convert_byte().is_some() {
+            if self.binary_byte_offset.is_some() {
+                return Ok(true);
+            }
+        }
         StandardImpl::new(searcher, self).write_context_separator()?;
         Ok(true)
     }
